@@ -4,9 +4,14 @@ From Coq Require Import Bool List NArith ZArith Lia.
 From M Require Swap.
 From M Require ArrayBytes.
 From M Require RtBlock.
+From M Require Framing3.
+From M Require ArrayScenario.
+From M Require ArrayBytes.
 From M Require BufModel.
 From M Require DecSpec.
 From M Require FmtModel.
+From M Require Framing2.
+From M Require Framing3.
 From M Require IntFmtProofs.
 From M Require LexBounds.
 From M Require LexModel.
@@ -85,4 +90,29 @@ Theorem C17_result_block_lexes :
 Proof. exact (@RtBlock.result_block_lexes). Qed.
 End T_result_block_lexes.
 Definition C17_result_block_lexes := @T_result_block_lexes.C17_result_block_lexes.
+
+Module T_array_steps. Import Framing3. Local Open Scope bool_scope. Local Open Scope Z_scope.
+Import ParserModel Framing2. Local Open Scope Z_scope.
+Local Open Scope Z_scope.
+Theorem C17_array_steps :
+  forall c size fmt vals,
+  size_ok size -> Steps c (result_array c size fmt vals) (arr_items size fmt vals).
+Proof. exact (@Framing3.array_steps). Qed.
+End T_array_steps.
+Definition C17_array_steps := @T_array_steps.C17_array_steps.
+
+Module T_array_result_bytes. Import ArrayScenario. Local Open Scope bool_scope. Local Open Scope Z_scope.
+Import BufModel ArrayBytes ParserModel Framing2 Framing3. Local Open Scope Z_scope.
+Local Open Scope Z_scope.
+Theorem C17_array_result_bytes :
+  forall c size fmt vals,
+  size_ok size -> (fmt = 1 \/ fmt = 2) ->
+  Forall (in_width (Z.to_nat size)) vals ->
+  let c' := result_array c size fmt vals in
+  W c' = W c ++ delim_bytes (first_output c) (output_count c) ++
+         ParserModel.block_header (Z.of_nat (length vals) * size) ++ bz (flat_map (requested fmt (Z.to_nat size)) vals)
+  /\ output_count c' = output_count c + 1 /\ first_output c' = first_output c /\ Fl c' = Fl c.
+Proof. exact (@ArrayScenario.array_result_bytes). Qed.
+End T_array_result_bytes.
+Definition C17_array_result_bytes := @T_array_result_bytes.C17_array_result_bytes.
 
